@@ -1,4 +1,4 @@
-import DrummerVerif.Lemmas.C04
+import DrummerVerif.Lemmas.C04H
 import DrummerVerif.Lemmas.C04a
 import DrummerVerif.Lemmas.LoopSys
 /-!
@@ -10,48 +10,106 @@ the full statement (all quantifiers explicit).
 namespace Drummer
 namespace C04
 
+theorem view_mirrors_max :
+    ∀ (H : Hist) (cs : List Cmd) (d : DB),
+      runCmds { } cs = Outcome.ok d →
+        ConsistentWith H cs →
+          ∀ (c : Shard),
+            c ∈ d.image.shards →
+              SeenIn cs c.shardId c.cci ∧
+                (∀ (v : Nat), SeenIn cs c.shardId v → v ≤ c.cci) ∧
+                  (∀ (p : Nat × Addr), p ∈ Shard.pairs c ↔ p ∈ H c.shardId c.cci) ∧
+                    List.Nodup (List.map (fun x => x.replicaId) c.replicas) :=
+  @_root_.Drummer.view_mirrors_max
+
+theorem view_version_is_max_seen :
+    ∀ (cs : List Cmd) (d : DB),
+      runCmds { } cs = Outcome.ok d →
+        (∀ (c : Shard), c ∈ d.image.shards → SeenIn cs c.shardId c.cci ∧ ∀ (v : Nat), SeenIn cs c.shardId v → v ≤ c.cci) ∧
+          ∀ (s v : Nat), SeenIn cs s v → ∃ c, c ∈ d.image.shards ∧ c.shardId = s :=
+  @_root_.Drummer.view_version_is_max_seen
+
+theorem version_never_decreases_over_histories :
+    ∀ (cs : List Cmd) (d d' : DB),
+      runCmds d cs = Outcome.ok d' →
+        UniqueShards d.image →
+          Covers d.image d'.image ∧ ∀ (s v : Nat), SeenIn cs s v → ∃ c, c ∈ d'.image.shards ∧ c.shardId = s ∧ v ≤ c.cci :=
+  @_root_.Drummer.history_covers
+
+theorem view_mirrors_history :
+    ∀ (H : Hist) (cs : List Cmd) (d d' : DB),
+      runCmds d cs = Outcome.ok d' →
+        (∀ (c : Shard), c ∈ d.image.shards → Shard.Mirrors H c) →
+          ConsistentWith H cs → ∀ (c : Shard), c ∈ d'.image.shards → Shard.Mirrors H c :=
+  @_root_.Drummer.history_mirrors
+
+theorem one_report_never_lowers_a_version :
+    ∀ (mc mc' : MultiShard) (nhi : NodeHostInfo),
+      UniqueShards mc →
+        MultiShard.update mc nhi = Outcome.ok mc' →
+          Covers mc mc' ∧
+            UniqueShards mc' ∧
+              ∀ (ci : ShardInfo),
+                ci ∈ nhi.shardInfo →
+                  ShardInfo.complete ci → ∃ c', c' ∈ mc'.shards ∧ c'.shardId = ci.shardId ∧ ci.cci ≤ c'.cci :=
+  @_root_.Drummer.update_covers
+
 theorem first_report_mirrors :
     ∀ (H : Hist) (ci : ShardInfo) (t : Nat), ShardInfo.Consistent H ci → Shard.Mirrors H (getShard ci t) :=
   @_root_.Drummer.getShard_mirrors
 
 theorem sync_mirrors :
     ∀ (H : Hist) (c c' : Shard) (ci : ShardInfo) (t : Nat) (rej : Bool),
-    Shard.Mirrors H c →
-    ShardInfo.Consistent H ci →
-    c.shardId = ci.shardId →
-    Shard.sync c ci t = Outcome.ok (rej, c') →
-    Shard.Mirrors H c' ∧ c'.shardId = c.shardId ∧ c'.cci = max c.cci ci.cci :=
+      Shard.Mirrors H c →
+        ShardInfo.Consistent H ci →
+          c.shardId = ci.shardId →
+            Shard.sync c ci t = Outcome.ok (rej, c') →
+              Shard.Mirrors H c' ∧ c'.shardId = c.shardId ∧ c'.cci = max c.cci ci.cci :=
   @_root_.Drummer.sync_mirrors
 
 theorem sync_newer :
     ∀ (c c' : Shard) (ci : ShardInfo) (t : Nat),
-    Shard.WF c →
-    ShardInfo.WF ci →
-    c.cci < ci.cci →
-    Shard.sync c ci t = Outcome.ok (false, c') →
-    c'.cci = ci.cci ∧
-    ∀ (n : Replica),
-    n ∈ c'.replicas ↔
-    (n ∈ c.replicas ∧ ∃ a, (n.replicaId, a) ∈ ci.replicas) ∨
-    ∃ a,
-    (n.replicaId, a) ∈ ci.replicas ∧
-    Shard.find? c n.replicaId = none ∧
-    n = { shardId := ci.shardId, replicaId := n.replicaId, address := a, firstObserved := t } :=
+      Shard.WF c →
+        ShardInfo.WF ci →
+          c.cci < ci.cci →
+            Shard.sync c ci t = Outcome.ok (false, c') →
+              c'.cci = ci.cci ∧
+                ∀ (n : Replica),
+                  n ∈ c'.replicas ↔
+                    (n ∈ c.replicas ∧ ∃ a, (n.replicaId, a) ∈ ci.replicas) ∨
+                      ∃ a,
+                        (n.replicaId, a) ∈ ci.replicas ∧
+                          Shard.find? c n.replicaId = none ∧
+                            n = { shardId := ci.shardId, replicaId := n.replicaId, address := a, firstObserved := t } :=
   @_root_.Drummer.sync_newer
 
 theorem update_mirrors :
     ∀ (H : Hist) (mc mc' : MultiShard) (nhi : NodeHostInfo),
-    (∀ (c : Shard), c ∈ mc.shards → Shard.Mirrors H c) →
-    (∀ (ci : ShardInfo), ci ∈ nhi.shardInfo → ¬(ci.pending || ci.incomplete) = true → ShardInfo.Consistent H ci) →
-    MultiShard.update mc nhi = Outcome.ok mc' → ∀ (c : Shard), c ∈ mc'.shards → Shard.Mirrors H c :=
+      (∀ (c : Shard), c ∈ mc.shards → Shard.Mirrors H c) →
+        (∀ (ci : ShardInfo), ci ∈ nhi.shardInfo → ¬(ci.pending || ci.incomplete) = true → ShardInfo.Consistent H ci) →
+          MultiShard.update mc nhi = Outcome.ok mc' → ∀ (c : Shard), c ∈ mc'.shards → Shard.Mirrors H c :=
   @_root_.Drummer.update_mirrors
 
-theorem version_never_decreases :
+theorem version_bounded_by_reported :
     ∀ (B : Nat) (mc mc' : MultiShard) (nhi : NodeHostInfo),
-    (∀ (c : Shard), c ∈ mc.shards → c.cci ≤ B) →
-    (∀ (ci : ShardInfo), ci ∈ nhi.shardInfo → ci.cci ≤ B) →
-    MultiShard.update mc nhi = Outcome.ok mc' → ∀ (c : Shard), c ∈ mc'.shards → c.cci ≤ B :=
+      (∀ (c : Shard), c ∈ mc.shards → c.cci ≤ B) →
+        (∀ (ci : ShardInfo), ci ∈ nhi.shardInfo → ci.cci ≤ B) →
+          MultiShard.update mc nhi = Outcome.ok mc' → ∀ (c : Shard), c ∈ mc'.shards → c.cci ≤ B :=
   @_root_.Drummer.update_cci_le
 
 end C04
 end Drummer
+
+namespace Drummer.C04
+/-! non-vacuity: a concrete history — a stale report after a newer one — meets the hypotheses -/
+def Hdemo : Hist := fun s v => if s = 1 ∧ v = 5 then [(1, "a1"), (2, "a2"), (3, "a3")] else if s = 1 ∧ v = 9 then [(1, "a1"), (2, "a2"), (4, "a4")] else []
+def rep (addr : Addr) (rid cci : Nat) (reps : List (Nat × Addr)) : Cmd :=
+  .report { raftAddress := addr, shardInfo := [{ shardId := 1, replicaId := rid, cci := cci, replicas := reps }], shardIdList := [1] }
+def demo : List Cmd :=
+  [.tick, rep "a1" 1 5 [(1, "a1"), (2, "a2"), (3, "a3")], rep "a2" 2 9 [(1, "a1"), (2, "a2"), (4, "a4")],
+   rep "a3" 3 5 [(1, "a1"), (2, "a2"), (3, "a3")]]
+/-- the history runs, and the view ends at version 9 with members 1, 2, 4 although the last report carried version 5 -/
+example : (match runCmds {} demo with
+    | .ok d => d.image.shards.map (fun c => (c.shardId, c.cci, c.replicas.map (·.replicaId)))
+    | .panic _ => []) = [(1, 9, [1, 2, 4])] := by decide
+end Drummer.C04
